@@ -84,6 +84,28 @@ macro_rules! typed_msg_vec {
     };
 }
 
+/// `typed_arc!(name: Type = value)`: an `Arc<Type>` whose allocation is a *typed* stack object
+/// (`#[repr(C)] { strong, weak, data }`, the layout of `ArcInner`) instead of an untyped heap byte
+/// array. Measured: a field read through `Arc::new(cfg)` is not constant-folded by CBMC (every branch
+/// on a configuration value is then explored on both sides), through this Arc it is. The reference
+/// counts start at 1 and the Arc is never released (`mem::forget` at the end of the harness).
+#[repr(C)]
+pub struct TypedArcInner<T> {
+    pub strong: core::sync::atomic::AtomicUsize,
+    pub weak: core::sync::atomic::AtomicUsize,
+    pub data: T,
+}
+macro_rules! typed_arc {
+    ($name:ident : $t:ty = $v:expr) => {
+        let __inner = core::mem::ManuallyDrop::new(crate::verif::TypedArcInner::<$t> {
+            strong: core::sync::atomic::AtomicUsize::new(1),
+            weak: core::sync::atomic::AtomicUsize::new(1),
+            data: $v,
+        });
+        let $name: std::sync::Arc<$t> = unsafe { std::sync::Arc::from_raw(&__inner.data as *const $t) };
+    };
+}
+
 /// `typed_segments!(partition)`: re-home `partition.segments` (capacity 4) in a *typed* stack array.
 /// CBMC keeps field-sensitive SSA symbols for typed objects; a `Vec<Segment>` buffer obtained from
 /// the allocator is an untyped byte array, and every access to a (large) `Segment` in it becomes a
